@@ -23,7 +23,8 @@ PROPS = {
         "rule": "one run = one seeded tape: link kind, schedule variant (eager / would-block at frame boundaries / inside frames / everywhere / one frame per poll / heavy), 1..8 (thorough 1..40) packets with drawn flags, addresses, sizes (incl. 256+ and 4096-frame packets) and byte patterns, sends interleaved with polls, every device read answered from the tape (would-block, short read, Interrupted); plus the enumerated single would-block sweep (12 size pairs x 3 links x every unit position x bursts 1,2,50). Non-trivial = at least one of: poll ended on a partial packet, would-block inside a frame, multi-frame packet, >=2 packets, packets still queued at a return, sweep case. Distinct = distinct event-log hashes among the non-trivial runs.",
         "state_measure": "abstract state = (receiver phase: idle | partial with bucketed units taken) x bucketed units in flight x last poll delivered; transitions between consecutive polls",
         "probes": ["poll_ended_on_partial_packet", "wouldblock_inside_frame", "multi_frame_packet", "multi_packet_sequence",
-                   "packets_queued_at_return", "frame_id_over_255", "sweep_case", "serial_short_read", "long_no_data_burst"],
+                   "packets_queued_at_return", "frame_id_over_255", "sweep_case", "serial_short_read", "long_no_data_burst",
+                   "duplex_traffic", "identical_consecutive_packets", "nearly_identical_consecutive_packets", "sequence_over_256_packets", "serial_idle_read_returned_zero"],
         "components": REAL_LINK,
         "assumptions": COMMON_ASSUMPTIONS + [
             "schedule space as the property states it: 'no data yet' between frames on CAN and serial port, between any two bytes on USART; data eventually arrives (consecutive would-blocks while data is in flight are bounded per run by 1, 3, 8 or 64)",
@@ -35,7 +36,7 @@ PROPS = {
 PROPS["C06"] = {
     "scenario": "S-LINK(hostile)",
     "level": "exploration",
-    "runs": {"quick": 1500000, "thorough": 20000000},
+    "runs": {"quick": 1000000, "thorough": 15000000},
     "crash_clause": "C06.total",
     "rule": "one run = one seeded tape: link kind, polling schedule variant, 0..6 (thorough 0..40) episodes - each the frames of one source packet damaged by up to three faults (interrupted, dropped, duplicated, swapped, header rewritten, foreign frame interleaved, start frame retransmitted; bit flip, zero byte, truncated / extended / arbitrary body incl. length 0 and 255, lying or oversized declared data length, line noise; CAN: standard id, remote, arbitrary id, overrun with frame loss, multi-frame without id byte) - an optional stale partial packet matching the probes' device/type, then two complete probe packets back-to-back; optional receiver restarts. Non-trivial = a hostile prefix existed, or the first probe was dropped with an error, or a prefix frame/builder error was returned. Distinct = distinct event-log hashes among those.",
     "state_measure": "abstract state = bucketed frames taken x bucketed units in flight x last result class (ok / nothing / builder error / frame error / other)",
@@ -55,7 +56,7 @@ PROPS["C06"] = {
 PROPS["C19"] = {
     "scenario": "S-LINK(memory)",
     "level": "exploration",
-    "runs": {"quick": 80000, "thorough": 60000},
+    "runs": {"quick": 50000, "thorough": 50000},
     "crash_clause": None,
     "rule": "one run = one seeded tape: link kind, polling schedule variant, a long traffic history of 20..420 (thorough up to 20000) episodes as in C06 (clean packets incl. 256+/4096-frame ones, damaged packets, abandoned start frames announcing up to 4096 frames; in 4% of the runs over-long 'packets' of up to 8192 frames whose 13th id bit sits in the reserved header bit; in a quarter of the runs a USART/serial device that fails reads hard at aligned positions), 15% of runs clean-only; SUT-domain heap bytes measured after every poll with the returned value dropped first, and the largest single SUT allocation during each poll. Every run is non-trivial (it holds a partial packet between polls or crosses a boundary after a multi-frame packet); distinct = distinct event-log hashes.",
     "state_measure": "abstract state (sampled every 64 polls) = bucketed bytes held above fresh x bucketed announcement in flight x bucketed units in flight",
@@ -72,12 +73,13 @@ PROPS["C19"] = {
 PROPS["C14"] = {
     "scenario": "S-SEND",
     "level": "fault_enumeration",
-    "runs": {"quick": 1500000, "thorough": 20000000},
+    "runs": {"quick": 1000000, "thorough": 15000000},
     "crash_clause": "C14.exact",
     "rule": "enumeration: for each packet of a fixed list (quick: 0,3,8,9,14,15,22 bytes; thorough: 40 sizes 0..70) and each link, after a dry run that counts the device calls, every single fault position: USART a would-block burst (1,2,50) before every byte; CAN a would-block burst before and a displaced-frame report at every transmit; serial port a hard error (3 kinds), every short-write size 1..14 and an Interrupted at every write call, an error (3 kinds) at every flush call. Exploration: seeded runs with random packets (up to 28672 bytes) and random combinations/rates of the same reactions. Non-trivial = a reaction actually fired or the packet is multi-frame. Distinct = distinct event-log hashes among those. The enumeration is exhaustive over its stated list only.",
     "state_measure": "not measured for this scenario (single call per run)",
     "probes": ["fired_would_block", "fired_short_write", "fired_interrupted", "fired_hard_write_error", "fired_flush_error",
-               "fired_displaced_frame", "multi_frame_packet", "frame_id_over_255", "sent_ok", "sent_err_reported", "long_would_block_burst"],
+               "fired_displaced_frame", "multi_frame_packet", "frame_id_over_255", "sent_ok", "sent_err_reported", "long_would_block_burst",
+               "several_packets_through_one_sender", "send_after_failed_send", "sender_has_receive_history"],
     "components": [
         "real: /repo/src/interface/{can,usart,serial}.rs try_send_packet; Packet::to_frames; Frame::to_usart_frame / to_bxcan_frame; cobs",
         "real (as definition of the expected stream): the library's own fragmenter and frame encoders (their layout is C08-C10's subject)",
@@ -123,7 +125,7 @@ NODE_ASSUMPTIONS = COMMON_ASSUMPTIONS + [
 PROPS["C15"] = {
     "scenario": "S-NODE",
     "level": "exploration",
-    "runs": {"quick": 4000000, "thorough": 60000000},
+    "runs": {"quick": 2500000, "thorough": 40000000},
     "crash_clause": "C15.fanout",
     "rule": "one run = one seeded tape: own address (incl. 0xffff, 0x0000), a history of 1..24 (thorough 1..80) operations - add (capture-all or not; plain or transmitting handler), remove (live / stale / never issued id), tick against a drawn link result (packet to own / broadcast / other address, data or error packet; nothing; each of 18 link error values; optionally a second packet queued behind), send - each registry operation followed by a reveal delivery on both paths. Every tick is judged: at most one packet taken, fan-out multiset, result, re-entrant transmissions. Non-trivial = a probe fired (broadcast delivery, capture-all-only delivery, link error, nothing, id reuse, re-entrant send, queued second packet ...). Distinct = distinct event-log hashes among those.",
     "state_measure": "abstract state = bucketed handler count x bucketed capture-all count x last operation kind",
@@ -146,7 +148,7 @@ PROPS["C17"] = dict(PROPS["C15"], **{
 PROPS["C18"] = {
     "scenario": "S-NODE(exchange)",
     "level": "exploration",
-    "runs": {"quick": 4000000, "thorough": 60000000},
+    "runs": {"quick": 2500000, "thorough": 40000000},
     "crash_clause": "C18.first",
     "rule": "one run = one seeded tape: own address, 0..3 handlers, 1..2 (thorough 1..4) exchanges, each with: single- or multi-reply form, capture mode, one of the 16 event kinds as requested type, a request addressed to own / broadcast / another device, an optional send error, an incoming queue of 0..12 entries (valid encodings of the requested and of other kinds, error-flagged, wrongly sized, addressed to own / broadcast / others, explicit 'nothing received'), optionally ending in one of 18 link errors, optionally with later traffic behind the stopping point. The request routing is compared with an ordinary send of the same request on an identically built twin node; the result, the wait callback's count and position in the global event sequence, and the entries left on the link are compared with the model. Non-trivial = any exchange probe fired. Distinct = distinct event-log hashes among those.",
     "state_measure": "abstract state = requested kind x form x capture mode x bucketed queue length x (link error, timeout)",
